@@ -839,6 +839,47 @@ fn run_one(text: &str) {
             "mapfull_sweep" => {
                 verdict.extend(mapfull_sweep_case());
             }
+            "cosine_definition" => {
+                // reported cosine distances against an f64 reference on pairs with a tiny, an ordinary and a huge norm
+                use crate::distance::Cosine;
+                let dir2 = tempfile::tempdir().unwrap();
+                let env2 = unsafe { EnvOpenOptions::new().map_size(50 * 1024 * 1024).open(dir2.path()) }.unwrap();
+                let mut t2 = env2.write_txn().unwrap();
+                let dbc: Database<Cosine> = env2.create_database(&mut t2, None).unwrap();
+                for d in [3usize, 17, 40] {
+                    let w = Writer::<Cosine>::new(dbc, d as u16, d);
+                    let base: Vec<f32> = (0..d).map(|j| if j % 2 == 0 { 1.0 } else { -0.5 }).collect();
+                    let ortho: Vec<f32> = (0..d).map(|j| if j == 0 { 0.5 } else if j == 1 { 1.0 } else { 0.0 }).collect();
+                    let vecs: Vec<Vec<f32>> = vec![
+                        base.iter().map(|x| x * 1e-8).collect(),
+                        base.iter().map(|x| -x * 1e4).collect(),
+                        base.iter().map(|x| x * 1e4).collect(),
+                        ortho.clone(),
+                        base.clone(),
+                    ];
+                    for (i, v) in vecs.iter().enumerate() {
+                        w.add_item(&mut t2, i as u32, v).unwrap();
+                    }
+                    let mut rng = StdRng::seed_from_u64(0);
+                    w.builder(&mut rng).n_trees(1).build(&mut t2).unwrap();
+                    let r = Reader::<Cosine>::open(&t2, d as u16, dbc).unwrap();
+                    for (i, v) in vecs.iter().enumerate() {
+                        let mut q = r.nns(vecs.len());
+                        q.search_k(NonZeroUsize::new(1_000_000).unwrap());
+                        let got = q.by_vector(&t2, v).unwrap();
+                        for (j, dist) in got {
+                            let u = &vecs[j as usize];
+                            let dot: f64 = u.iter().zip(v.iter()).map(|(a, b)| *a as f64 * *b as f64).sum();
+                            let nu: f64 = u.iter().map(|a| (*a as f64).powi(2)).sum::<f64>().sqrt();
+                            let nv: f64 = v.iter().map(|a| (*a as f64).powi(2)).sum::<f64>().sqrt();
+                            let want = if nu * nv > f32::EPSILON as f64 { (1.0 - (dot / (nu * nv)).clamp(-1.0, 1.0)) / 2.0 } else { 0.0 };
+                            if (dist as f64 - want).abs() > 1e-3 {
+                                verdict.push(format!("dim {d}: cosine distance({i}, {j}) reported as {dist}, the definition gives {want}"));
+                            }
+                        }
+                    }
+                }
+            }
             "budget_equiv" => {
                 // leaving the budget unset with oversampling=o must equal search_k = count * n_trees * o
                 let reader = Reader::<D>::open(&wtxn, index, db).unwrap();
@@ -1013,6 +1054,20 @@ fn run_one(text: &str) {
                 let got = run(&a, &b);
                 if got != want {
                     verdict.push(format!("{kernel} kernel, length {n}: got {got}, the definition gives {want}"));
+                }
+                // far from the origin, close to each other: a formula that cancels catastrophically in f32
+                // (e.g. |u|^2 + |v|^2 - 2 u.v) is off by orders of magnitude; summation order is not
+                let far_a: Vec<f32> = (0..n).map(|i| 1000.0 + i as f32).collect();
+                let far_b: Vec<f32> = (0..n).map(|i| 1000.0 + i as f32 + 0.0009765625).collect();
+                let want64: f64 = (0..n)
+                    .map(|i| {
+                        let (x, y) = (far_a[i] as f64, far_b[i] as f64);
+                        if kernel == "dot" { x * y } else { (x - y) * (x - y) }
+                    })
+                    .sum();
+                let got = run(&far_a, &far_b) as f64;
+                if (got - want64).abs() > 1e-3 * want64.abs() {
+                    verdict.push(format!("{kernel} kernel, length {n}, close vectors far from the origin: got {got}, the definition gives {want64}"));
                 }
                 for hot in 0..n {
                     let mut x = vec![0.0f32; n];
